@@ -356,6 +356,7 @@ class RTCDtlsTransport(AsyncIOEventEmitter):
 
         super().__init__()
         self.encrypted = False
+        self._data_early: list[bytes] = []
         self._data_receiver: Optional[DataReceiver] = None
         self._role = "auto"
         self._rtp_header_extensions_map = rtp.HeaderExtensionsMap()
@@ -543,6 +544,10 @@ class RTCDtlsTransport(AsyncIOEventEmitter):
         # start data pump
         self.__log_debug("- DTLS handshake complete")
         self._set_state(State.CONNECTED)
+        data_early, self._data_early = self._data_early, []
+        for data in data_early:
+            if self._data_receiver:
+                await self._data_receiver._handle_data(data)
         self._task = asyncio.ensure_future(self.__run())
 
     async def stop(self) -> None:
@@ -660,6 +665,10 @@ class RTCDtlsTransport(AsyncIOEventEmitter):
             if data is None:
                 self.__log_debug("- DTLS shutdown by remote party")
                 raise ConnectionError
+            elif data and self._state != State.CONNECTED:
+                # application data which OpenSSL released while completing the
+                # handshake: the peer's identity has not been validated yet
+                self._data_early.append(data)
             elif data and self._data_receiver:
                 await self._data_receiver._handle_data(data)
         elif first_byte > 127 and first_byte < 192 and self._rx_srtp:
